@@ -166,7 +166,7 @@ def c_cancel_library_sources(when: int, n0: int, extra: bool) -> str:
 E2E_KIND = part('e2e_kind', 1)        # 0 request-response, 1 stream, 2 channel
 
 
-def c_cancel_end_to_end(big: bool, frag: bool, mode_i: int, moment: int) -> str:
+def c_cancel_end_to_end(big: bool, frag: bool, mode_i: int, moment: int, resp_cancels: bool) -> str:
     """
     Both ends: a real client (requester) and a real server joined by the simulated link of C01.  The application
     cancels a request-response / stream / channel (E2E_KIND) whose request payload is small or needs several
@@ -174,7 +174,10 @@ def c_cancel_end_to_end(big: bool, frag: bool, mode_i: int, moment: int) -> str:
     partly on the wire when the client's writer blocks), 2: after the request was delivered and the producer started.
     Link: message framing / TCP / TCP with the client's writer blocking in drain().  At quiescence: exactly one
     CANCEL left the client, the canceller received nothing, the server's handler future / publisher was cancelled
-    (if the handler was invoked at all), and neither endpoint retains the stream or a partial frame.
+    (if the handler was invoked at all), and neither endpoint retains the stream or a partial frame.  Channels
+    (moment 2): the cancel closes one direction only; it may also be the RESPONDER's application that cancels
+    (`resp_cancels`); when the cancelling side's own publisher then completes (a separate completion signal), both
+    directions are finished and neither endpoint retains the channel.
 
     pre: 0 <= mode_i <= 2 and 0 <= moment <= 2
     post: _ in ALLOWED
@@ -212,13 +215,25 @@ def c_cancel_end_to_end(big: bool, frag: bool, mode_i: int, moment: int) -> str:
         elif moment == 2:
             link.pump()
         log_at = len(sub.log) if sub is not None else 0
-        if fut is not None:
+        h = srv._handler
+        resp_cancels = E2E_KIND == 2 and moment == 2 and concb(resp_cancels) and 0 in h.subs and h.subs[0].subscription is not None
+        if resp_cancels:
+            h.subs[0].subscription.cancel()          # the responder's application no longer wants the requester's elements
+        elif fut is not None:
             fut.cancel()
         else:
             sub.subscription.cancel()
         link.pump()
         devs = []
-        h = srv._handler
+        if E2E_KIND == 2 and moment == 2 and 0 in h.pubs:
+            # the cancelling side's own publisher finishes with a separate completion: both directions are then closed
+            closer = h.pubs[0] if resp_cancels else pub
+            if closer.sub is not None and not closer.done:
+                closer.complete()
+                link.pump()
+                if srv._stream_control._streams or cli._stream_control._streams:
+                    devs.append('C10:e2e:channel-retained-after-both-directions-finished:%s'
+                                % ('responder' if srv._stream_control._streams else 'requester'))
         # what left the client
         if link.tcp:
             raw = link.c2s.all_bytes()
@@ -233,9 +248,9 @@ def c_cancel_end_to_end(big: bool, frag: bool, mode_i: int, moment: int) -> str:
             from rsocket.frame import parse_or_ignore
             dec = [parse_or_ignore(x) for x in frames]
             cancels = [f for f in dec if isinstance(f, CancelFrame)]
-            if len(cancels) != 1:
+            if len(cancels) != 1 and not resp_cancels:
                 devs.append('C09:e2e:%d-CANCEL-frames-left-the-canceller' % len(cancels))
-        if sub is not None and len(sub.log) > log_at:
+        if sub is not None and len(sub.log) > log_at and not resp_cancels:
             devs.append('C09:e2e:signal-delivered-to-canceller-after-cancel')
         if fut is not None and not fut.cancelled():
             devs.append('cancelled-awaitable-resolved-afterwards')
